@@ -52,7 +52,10 @@ NSHARD = {"quick": 16, "thorough": 64}
 def plan(tier, seed):
     n = NSHARD[tier]
     specs = [{"part": "graphs", "shard": i, "of": n} for i in range(n)]
-    specs += [{"part": "bfs", "seed": s} for s in ("empty", "path", "triangle", "selfloop", "parallel")]
+    # the search from the two richest seed graphs is split by the first operation taken from the seed state
+    for s_ in ("empty", "path", "triangle", "selfloop", "parallel"):
+        m = 6 if s_ in ("path", "triangle") else 1
+        specs += [{"part": "bfs", "seed": s_, "first": j, "of": m} for j in range(m)]
     if tier == "thorough":
         specs += [dict(x, hashseed=1) for x in specs if x["part"] == "graphs"]
     return specs
@@ -418,7 +421,9 @@ def bfs_part(res, spec, tier):
         maxd = max(maxd, d)
         if d >= depth:
             continue
-        for op in ops_for(nodes):
+        for opi, op in enumerate(ops_for(nodes)):
+            if d == 0 and opi % spec.get("of", 1) != spec.get("first", 0):
+                continue  # another shard starts with this operation
             G2 = copy.deepcopy(G)
             h2 = hist + [op]
             if op[0].startswith("obs_"):
@@ -452,7 +457,8 @@ def bfs_part(res, spec, tier):
                     check_decomposition(res, sorted(n2), link_list, f"graph reached by {h2}", cache)
                 stale += sum(1 for e in G2.edge_tags if e[0] not in G2.nodes or e[2] not in G2.nodes)
                 frontier.append((G2, n2, l2, h2, d + 1))
-    res.count("states", len(seen))
+    for k in seen:
+        res.seen("bfs_states", fw.h64(k))  # merged over the shards of one seed (their searches overlap)
     res.count("transitions", transitions)
     res.count("traces_validated_against_impl", transitions)
     res.count("stale_edge_tag_entries_seen(info)", stale)
@@ -476,7 +482,10 @@ def finalize(results, tier):
     for r in results:
         for k, v in r.get("stats", {}).items():
             st[k] = st.get(k, 0) + v
-    return {"coverage": {"states": st.get("states", 0), "transitions": st.get("transitions", 0), "traces_validated_against_impl": st.get("traces_validated_against_impl", 0)}}
+    states = set()
+    for r in results:
+        states.update(map(str, r.get("sets", {}).get("bfs_states", [])))
+    return {"coverage": {"states": len(states), "transitions": st.get("transitions", 0), "traces_validated_against_impl": st.get("traces_validated_against_impl", 0)}}
 
 
 def replay(case, scratch):
